@@ -160,7 +160,8 @@ pub trait Handle:
     fn reindex(&self, gaps: &[(Self, isize)]) -> Self {
         let mut delta = 0;
         for (gaphandle, gapdelta) in gaps.iter() {
-            if gaphandle.as_usize() < self.as_usize() {
+            //(a gap is registered on the first item *after* it, that item moves as well)
+            if gaphandle.as_usize() <= self.as_usize() {
                 delta += gapdelta;
             } else {
                 break;
